@@ -64,7 +64,8 @@ Inductive op :=
 | ORaw (delta : Z)               (* graph.schedule_node(self, now + delta) *)
 | OThrow (a : Z)                 (* throw runtime_error("hgv boom a") *)
 | OPoke (a b : Z)                (* child(a).schedule_node(b, child(a).evaluation_time()) from outside *)
-| ONop.
+| ONop
+| OThrowForeign.                (* throw an object that is not a std::exception: reported as "unknown error" *)
 
 Record inview := mkIv { v_valid : bool; v_mod : bool; v_val : Z; v_lmt : Z }.
 
@@ -269,6 +270,7 @@ Definition do_op (T : tcfg) (g i : nat) (started : bool) (opi : Z) (o : op) (w :
       then sched_at (length T) T (c_child c') (Z.to_nat b) (now_of (c_child c') w) w
       else w
   | ONop => w
+  | OThrowForeign => set_err 2 w
   end.
 
 Fixpoint do_ops (T : tcfg) (g i : nat) (started : bool) (opi : Z) (os : list op) (w : world) : world :=
@@ -629,7 +631,8 @@ Definition decode_op (code a b : Z) : op :=
   if code =? 6 then OEmit a else
   if code =? 7 then ORaw a else
   if code =? 8 then OThrow a else
-  if code =? 9 then OPoke a b else ONop.
+  if code =? 9 then OPoke a b else
+  if code =? 11 then OThrowForeign else ONop.
 
 (* script lines: 3 g node k code a b *)
 Definition script_ops (w : wire) (g i : nat) (k : Z) : list op :=
@@ -687,6 +690,7 @@ Definition run_nest_rule (rr : bool) (w : wire) : wire :=
 Definition no_throws (w : wire) : wire :=
   map (fun l => match l with
                 | 3 :: g :: n :: k :: 8 :: r => 3 :: g :: n :: k :: 0 :: r
+                | 3 :: g :: n :: k :: 11 :: r => 3 :: g :: n :: k :: 0 :: r
                 | _ => l end) w.
 
 Definition is_paired (w : wire) : bool :=
